@@ -3,9 +3,10 @@
 Domain (DESIGN): version {1.0, 1.1} x request Connection header {absent, close, keep-alive, Keep-Alive,
 "close, x", upgrade} x method {GET, HEAD, POST} x request body framing {none, Content-Length, chunked} x
 no_keep_alive {F, T} x handler behaviour {buffered finish, flush+finish, finish before the body is read
-(stream_request_body handler answering from prepare()), explicit `Connection: close` response header}
-= 864 combinations x transport {fast, slow: the transport accepts no output until all input (request,
-body, pipelined request) was delivered and the loop is quiescent, then everything} = 1728 cases, each
+(stream_request_body handler answering from prepare()), explicit `Connection: close` response header,
+stream_request_body handler that writes+flushes in prepare() and finishes in the method after the body}
+= 1080 combinations x transport {fast, slow: the transport accepts no output until all input (request,
+body, pipelined request) was delivered and the loop is quiescent, then everything} = 2160 cases, each
 followed by a second pipelined request.  Both tiers enumerate the whole product
 (quick: request delivered in one segment; thorough: x3 segmentations: whole / byte-wise / head|rest);
 Hypothesis additionally samples the product with random segmentation.
@@ -31,7 +32,7 @@ Findings on the current tree (open, see known_findings.d/C03.json + findings_inb
       body framing / early finish (c);  early finish on HTTP/1.1 closes without Connection: close (b).
 With the proposed patches applied to a scratch copy the check is quiet with zero excluded cases.
 
-Sensitivity (quick tier, seed 1, each mutant applied alone to a scratch copy of tornado/; all 8 caught):
+Sensitivity (quick tier, seed 1, each mutant applied alone to a scratch copy of tornado/; all 9 caught):
   _can_keep_alive: HTTP/1.0 keep-alive honoured without body framing   -> C03.persistence / C03.open_but_response_not_self_delimiting
   finish: `_disconnect_on_finish` not set on early finish               -> C03.persistence
   write_headers: Keep-Alive acknowledged for every HTTP/1.0 request     -> C03.keepalive_ack_on_closing_connection
@@ -39,6 +40,12 @@ Sensitivity (quick tier, seed 1, each mutant applied alone to a scratch copy of 
   _can_keep_alive: HTTP/1.1 `Connection: close` ignored                 -> C03.persistence
   write_headers: `Connection: close` not emitted for HTTP/1.1           -> C03.closing_without_connection_close
   _can_keep_alive: Connection value compared case-sensitively           -> C03.keepalive_ack_on_closing_connection
+  _read_message: `_disconnect_on_finish = not _can_keep_alive(...)` moved behind headers_received(): close
+      decision of a header block flushed from prepare() is overwritten, HTTP/1.0 keep-alive connection stays
+      open behind a close-delimited body                                -> C03.open_but_response_not_self_delimiting
+      (found by independent mutation testing and MISSED before the fifth behaviour `split_flush` (write+flush
+      in prepare() of a stream_request_body handler, finish in the method) existed; caught at seeds 1, 2, 3
+      in the enumeration, fast and slow transport)
   finish/_finish_request: early-finish rule evaluated when the last write completes (`_disconnect_on_finish or
       not _read_finished` in _finish_request) instead of being latched in finish(): with a slow transport the
       body is drained first, the connection stays open and the pipelined request is served
@@ -58,7 +65,7 @@ PROPERTY = "C03"
 READY = True
 RULE = (
     "full product version(2) x Connection(6) x method(3) x body framing(3) x no_keep_alive(2) x handler "
-    "behaviour(4) = 864 x transport fast/slow(2) = 1728 cases enumerated (quick: 1 segmentation, thorough: 3) plus Hypothesis samples of "
+    "behaviour(5) = 1080 x transport fast/slow(2) = 2160 cases enumerated (quick: 1 segmentation, thorough: 3) plus Hypothesis samples of "
     "the same product with random request segmentation; each case pipelines a second request; "
     "non-trivial = persistence decided by >=2 factors (anything but plain HTTP/1.1 GET without body, "
     "buffered); distinct = SHA-1 of the case"
@@ -70,7 +77,7 @@ ASSUMPTIONS = [
 ]
 TECHNIQUE = "exhaustive enumeration of the factor product + property-based sampling with segmentation; predicate oracle transcribed from the statement"
 LEVEL_TEXT = (
-    "exhaustive over the 864-combination factor product of the DESIGN x fast/slow transport (3 segmentations in the thorough tier) "
+    "exhaustive over the factor product of the DESIGN (864) extended by a fifth handler behaviour (1080) x fast/slow transport (3 segmentations in the thorough tier) "
     "for one fixed small request/response body per framing; other bodies, timeouts and TLS are not covered"
 )
 SHARDS = 16
@@ -80,7 +87,7 @@ CONNS = [None, "close", "keep-alive", "Keep-Alive", "close, x", "upgrade"]
 METHODS = ["GET", "HEAD", "POST"]
 FRAMINGS = ["none", "cl", "chunked"]
 NKA = [False, True]
-BEHAVIOURS = ["buffered", "flush", "early", "conn_close"]
+BEHAVIOURS = ["buffered", "flush", "early", "conn_close", "split_flush"]
 REQ_BODY = b"abc"
 
 PROGS = {
@@ -88,7 +95,10 @@ PROGS = {
     "flush": [("write", b"he"), ("flush", True), ("write", b"llo"), ("finish", None)],
     "early": [("write", b"hello"), ("finish", None)],
     "conn_close": [("set_header", "Connection", "close"), ("write", b"hello")],
+    # stream_request_body handler: write+flush in prepare() (before the body is read), rest after the body
+    "split_flush": [("write", b"he"), ("flush", True), ("write", b"llo"), ("finish", None)],
 }
+SPLIT = {"split_flush": 2}
 
 
 def product(segmodes):
@@ -129,7 +139,7 @@ def klass(case):
         return "no_keep_alive"
     if case["version"] == "1.0" and case["method"] == "POST" and case["framing"] == "none":
         return "http10_unframed_post"
-    if ka10 and case["behaviour"] == "flush" and case["method"] != "HEAD":
+    if ka10 and case["behaviour"] in ("flush", "split_flush") and case["method"] != "HEAD":
         return "http10_keepalive_flush"
     return "other"
 
@@ -147,12 +157,12 @@ def run_case(ctx, case):
         # slow client: the transport accepts no output until the whole input (request, body and the
         # pipelined request) has been delivered and the loop is quiescent; then everything is accepted
         wire, closed, _logs, _trace = rm.roundtrip_slow(
-            rm.make_app(PROGS[beh], early=early), data,
+            rm.make_app(PROGS[beh], early=early, pre=SPLIT.get(beh)), data,
             segments=segments_for(case["seg"], len(req), head_len), server_kwargs={"no_keep_alive": nka},
         )
     else:
         wire, closed, _logs, _s = httpharness.roundtrip(
-            rm.make_app(PROGS[beh], early=early), data,
+            rm.make_app(PROGS[beh], early=early, pre=SPLIT.get(beh)), data,
             segments=segments_for(case["seg"], len(req), head_len), server_kwargs={"no_keep_alive": nka},
         )
     cls = klass(case)
